@@ -55,6 +55,7 @@ def programs(tier: str):  # noqa: C901
     for when in ("before", "after"):
         yield {"special": "forward-refs", "other_defined": when}
     yield {"special": "nested-missing"}
+    yield {"special": "alias-swap-and-self"}
     for leaf in ak.LEAF_NAMES:
         yield {"host": leaf}
     for t in ak.terms(2, ak.LEAF_NAMES):
@@ -168,6 +169,63 @@ def execute(program, ch: Chooser) -> Result:  # noqa: C901, PLR0912, PLR0915
     viols: list[dict] = []
     stats = {ak.Y: 0, ak.N: 0, ak.U: 0, "accepted": 0, "rejected": 0}
     steps = 0
+    if program.get("special") == "alias-swap-and-self":
+        # (a) a two-parameter alias subscripted with the host's type variables in SWAPPED order
+        #     (simultaneous, not sequential substitution); (b) typing.Self inside containers
+        import typing
+
+        from haiway import State as _State
+
+        _K, _V = typing.TypeVar("K"), typing.TypeVar("V")  # noqa: PLC0132
+        Table = typing.TypeAliasType("Table", cabc.Mapping[_K, _V], type_params=(_K, _V))
+        Inverted = typing.TypeAliasType("Inverted", Table[_V, _K], type_params=(_K, _V))
+        checks: list = []
+        try:
+
+            class Index[K, V](_State):
+                forward: Table[K, V]
+                backward: Table[V, K]
+
+            class Plain(_State):
+                inv: Inverted[str, int]  # = Mapping[int, str]
+
+            class Tree(_State):
+                value: int
+                children: cabc.Sequence[typing.Self] = ()
+                by_name: cabc.Mapping[str, typing.Self | None] | None = None
+                pair: tuple[typing.Self, int] | None = None
+
+            II = Index[str, int]
+            leaf_ = Tree(value=1)
+            checks = [
+                ("index-own-order", lambda: II(forward={"a": 1}, backward={1: "a"}), True),
+                ("index-backward-like-forward", lambda: II(forward={"a": 1}, backward={"a": 1}), False),
+                ("index-backward-int-int", lambda: II(forward={"a": 1}, backward={1: 2}), False),
+                ("inverted-alias", lambda: Plain(inv={1: "a"}), True),
+                ("inverted-alias-unswapped", lambda: Plain(inv={"a": 1}), False),
+                ("self-in-sequence", lambda: Tree(value=2, children=[leaf_]), True),
+                ("self-in-sequence-int", lambda: Tree(value=2, children=[3]), False),
+                ("self-in-sequence-other-state", lambda: Tree(value=2, children=[FwdItem(value=1)]), False),
+                ("self-in-mapping", lambda: Tree(value=2, by_name={"a": leaf_, "b": None}), True),
+                ("self-in-mapping-str", lambda: Tree(value=2, by_name={"a": "x"}), False),
+                ("self-in-tuple", lambda: Tree(value=2, pair=(leaf_, 1)), True),
+                ("self-in-tuple-int", lambda: Tree(value=2, pair=(1, 1)), False),
+            ]
+        except Exception as exc:  # noqa: BLE001
+            viols.append(viol("declaration", "alias-swap-and-self", "declares", f"{type(exc).__name__}: {exc}"[:160]))
+        for name, make, ok_expected in checks:
+            steps += 1
+            try:
+                make()
+                ok = True
+            except Exception as exc:  # noqa: BLE001
+                ok, err = False, f"{type(exc).__name__}: {str(exc)[:80]}"
+            if ok and not ok_expected:
+                viols.append(viol("rejects-nonconforming", f"special/{name}", "raises", "accepted"))
+            elif not ok and ok_expected:
+                viols.append(viol("accepts-conforming", f"special/{name}", "construction succeeds", err))
+            stats["accepted" if ok else "rejected"] += 1
+        return Result("special/alias-swap-and-self", True, viols, program, steps=max(steps, 1))
     if program.get("special") == "nested-missing":
         # an attribute without default whose annotation admits MISSING only one union / alias /
         # type-variable level down: leaving it out conforms (it then holds MISSING)
